@@ -707,9 +707,18 @@ func runC06Faults(c *Ctx) {
 								if len(bad) > 0 || len(pr) > 0 {
 									fail("silent-divergence", "the call failed ("+w.LastErr.Error()+"), reads changed, Control and a fresh load report nothing, but index and files disagree: "+strings.Join(pr, "; "))
 								} else {
-									// the error was reported and what was stored before the failure is
-									// consistent (index and files agree, live and reloaded): no divergence
-									partialOK = true
+									// the error was reported and what reached the files is consistent; the live
+									// handle must then show exactly what a fresh handle shows (no cached or
+									// indexed value that was never stored)
+									live := w.DB
+									w.DB = db2
+									reloaded := w.Observe(ObsOpt{Ordered: true}, ord)
+									w.DB = live
+									if reloaded != after {
+										fail("live-handle-diverges-from-disk|"+diffKind(reloaded, after), "the call failed ("+w.LastErr.Error()+"); Control and a fresh load report nothing, but the live handle returns values that are not on disk:\n"+firstDiff(reloaded, after))
+									} else {
+										partialOK = true
+									}
 								}
 								return
 							}
